@@ -963,6 +963,8 @@ def run(chk):
     rng = chk.rng
     quick = chk.tier == "quick"
     chk.trusted += [
+        "the laziness sweep enumerates the library from the signature hook (typing/sigs, shared with C01) and synthesises arguments "
+        "from the parameter types; dyn functions over generators use the call templates of checklib/c16_lazy.py",
         "the oracle: the same pipeline over plain Python lists / itertools, with error values as list elements "
         "(strict functions), and a count of the callback calls a lazy evaluation performs",
         "XSequence (the source of FromSequence) is modelled as an array / the counter / the counter under a map (C15 owns sequences); "
@@ -1027,6 +1029,9 @@ def run(chk):
         if got != want:
             chk.violation(key, f"{e} evaluates to {d}; over plain lists it is {want}",
                           {"src": f"let r = {e};", "get": ["r"], "limits": {"search": SEARCH, "ud_calls": UD_CALLS}, "expected": want, "got": d})
+    # ---- laziness / needed-prefix sweep over every library function that takes a generator (c16_lazy.py)
+    from . import c16_lazy
+    c16_lazy.run_sweep(chk)
     for c in cases[len(fixed):len(fixed) + 4]:
         chk.sample({"program": f"let g = {c[0].src}; let a = g.{c[3]}; let b = g.{c[3]};", "model": " ".join(c[0].toks)})
     return chk.finish(rule="pipelines of 1-%d generator operations over arrays, count(), count(a,b), successors, successors_until, "
